@@ -237,7 +237,7 @@ func init() {
 		if c, ok := m.getField(args[1].(Ptr), m.namedType("net/http", "Request"), "ctx").(Iface); ok && c.T != nil {
 			if p, isPtr := c.V.(Ptr); isPtr && p != nil {
 				if o, isOp := (*p).(*Opaque); isOp && o.Kind == "cancelCtx" && o.X.(*Chan).Closed {
-					m.setResult(fr, in, Tuple{Ptr(nil), m.errorValue("context canceled")})
+					m.setResult(fr, in, Tuple{Ptr(nil), m.ctxCanceledErr(true)})
 					return
 				}
 			}
